@@ -28,10 +28,10 @@ func (c04) Assumptions() []string {
 
 func (c04) Batches(tier string, seed uint64) []core.Batch {
 	var b []core.Batch
-	b = append(b, spread("slot", 11, tierN(tier, 6, 30))...)
+	b = append(b, spread("slot", 11, tierN(tier, 12, 40))...)
 	b = append(b, spread("shape", 6, 0)...)
-	b = append(b, spread("rand", 16, tierN(tier, 400, 6000))...)
-	b = append(b, spread("malformed", 4, tierN(tier, 300, 3000))...)
+	b = append(b, spread("rand", 16, tierN(tier, 2500, 12000))...)
+	b = append(b, spread("malformed", 4, tierN(tier, 1500, 6000))...)
 	return b
 }
 
